@@ -51,18 +51,31 @@ class _Func:
         self.fn = cstmt.Fn(body)
 
 
+# the functions the property is about: a call of one of them is an anchor of a rule, never an extracted piece of another function
+SUBJECTS = {"Solve", "HandleError", "CheckFlag", "PyWrapSolve", "Init", "Reset", "Finalize"}
+
+
 def _helpers(sk, but):
-    """void functions of the file (free or member), by unqualified name"""
+    """functions of the file (free or member) whose calls are replaced by their bodies, by unqualified name: (parameters as
+    (name, by-value / reference / pointer, type), parsed body).  Constructors, destructors, operators and the functions the
+    property is about stay calls."""
     cache = sk.__dict__.setdefault("_c19_helpers", {})
     for f in sk.funcs:
-        short = f.name.split("::")[-1]
-        if f.name in cache or f.name == "?" or not re.search(r"\bvoid\b[\s\w:*&]*\b" + re.escape(short) + r"\s*\($", f.header[:f.header.find("(") + 1].replace("\n", " ")):
+        if f.name in cache or f.name == "?":
             continue
-        params = cstmt.params_of(f.header)
+        parts = f.name.split("::")
+        short = parts[-1]
+        cache[f.name] = None
+        if short in SUBJECTS or short.startswith(("~", "operator")) or (len(parts) > 1 and parts[-2] == short) \
+                or not re.search(r"[\w>*&]\s+[\w:]*\b" + re.escape(short) + r"\s*\($", f.header[:f.header.find("(") + 1].replace("\n", " ")):
+            continue
+        params = cstmt.param_decls(f.header)
+        if params is None:
+            continue
         try:
-            cache[f.name] = (short, params, cstmt.parse_body(cstmt.expand_macros(_ctext(sk, f.body), sk.__dict__.get("_c19_macros", {})))) if params is not None else None
+            cache[f.name] = (short, params, cstmt.parse_body(cstmt.expand_macros(_ctext(sk, f.body), sk.__dict__.get("_c19_macros", {}))))
         except cstmt.CStmtError:
-            cache[f.name] = None
+            pass
     return {v[0]: (v[1], v[2]) for k, v in cache.items() if v and k != but}
 
 
@@ -370,7 +383,19 @@ def _r3_ladder(ctx, label, F, FLAG, AB, DT, T0):
         cv = _is_call(r[1], "CVode")
         args = [cstmt.norm(a) for a in cv[2]]
         okc = cv[0] == FLAG and len(args) == 5 and args[0] == "cv_mem_" and args[2] == "cv_y_" and args[3] == "&" + T0 and args[4] == "CV_NORMAL"
-        ctx.check(okc, "R3", f"{label}:CVode call", where, f"{FLAG} = CVode(cv_mem_, tout, cv_y_, &{T0}, CV_NORMAL): progress is reported into {T0}", found=f"{cv[0]} = CVode({', '.join(args)})")
+        tret = args[3][1:] if len(args) == 5 and args[3].startswith("&") and cstmt.IDENT.match(args[3][1:]) else None
+        if not okc and tret and tret != T0 and cv[0] == FLAG and args[:3] + args[4:] == ["cv_mem_", args[1], "cv_y_", "CV_NORMAL"]:
+            # positive evidence: the time reached goes somewhere else (another local, or the copy a helper works on when it
+            # takes the time BY VALUE) and this function's own variable keeps the value it had at the re-initialisation
+            kept = post.expr(T0)
+            src = post.expr(tret)
+            ctx.bad("R3", f"{label}:CVode call", where,
+                    f"CVode reports the time reached into `{tret}`" + (f" (a copy of {T0}: the sub-step loop works on a by-value parameter)" if cstmt.same_value(src, kept) and "__byval" in tret else "")
+                    + f", not into {T0}: at the next level the recoverable branch subtracts an unchanged {T0} (= {kept if kept != T0 else 'its value at the re-initialisation'}) from the time left -- "
+                    "the part already integrated is integrated again from the state reached, and Solve reports success",
+                    expected=f"{FLAG} = CVode(cv_mem_, tout, cv_y_, &{T0}, CV_NORMAL)", found=f"{cv[0]} = CVode({', '.join(args)})")
+        else:
+            ctx.check(okc, "R3", f"{label}:CVode call", where, f"{FLAG} = CVode(cv_mem_, tout, cv_y_, &{T0}, CV_NORMAL): progress is reported into {T0}", found=f"{cv[0]} = CVode({', '.join(args)})")
         G = post.subst(cstmt.strip_casts(cv[2][1])) if len(cv[2]) > 1 else "?"
         Gt = cstmt.tokenize(G)
     except cstmt.Unknown as ex:
@@ -625,10 +650,17 @@ def _r4(ctx):
                 for d, b in t[2]:
                     sy = cstmt.Sym(concrete=CONSTS)
                     r = sy.run(before)
-                    for nm in cstmt.written(t[1]):
-                        sy.s[nm] = sy.opaque(nm)
-                        sy.c.pop(nm, None)
-                    rough.append(final(sy, [b, after]) if r is None else r[0])
+                    if r is not None:
+                        rough.append(r[0])
+                        continue
+                    # the handler is entered from a statement of the try block that can throw: what precedes it has run, what follows has not
+                    entries = cstmt.handler_entry_states(sy, t[1])
+                    if not entries:
+                        for nm in cstmt.written(t[1]):
+                            sy.s[nm] = sy.opaque(nm)
+                            sy.c.pop(nm, None)
+                        entries = [sy]
+                    rough += [final(e, [b, after]) for e in entries]
             except cstmt.Unknown as ex:
                 ctx.unrec("R4", "odeint Solve returns flag", (OD, 0), f"Solve is not straight-line around the try block: {ex}")
             else:
